@@ -59,7 +59,21 @@ def G2():
     return wn
 
 
-GRAPHS = {'G1': G1, 'G2': G2}
+def G3():
+    """EPANET-style numeric ids: a junction and a pipe may carry the same name ('7').  Junction 7 hangs on a closed pipe; pipe 7 is
+    the interior pipe of another district (junctions 3, 4) that is cut off and reconnected through pipe 12"""
+    wn = wntr.network.WaterNetworkModel()
+    wn.add_reservoir('1', base_head=60.0)
+    for n in ('2', '3', '4', '7'):
+        wn.add_junction(n, base_demand=0.01, elevation=1.0)
+    wn.add_pipe('10', '1', '2')
+    wn.add_pipe('11', '2', '7')
+    wn.add_pipe('12', '2', '3')
+    wn.add_pipe('7', '3', '4')
+    return wn
+
+
+GRAPHS = {'G1': G1, 'G2': G2, 'G3': G3}
 
 
 def reachable(wn):
@@ -134,6 +148,7 @@ CFGS_QUICK = [
     dict(name='G2-reopen-end-on-source-side', graph='G2', H=3600, dur=2 * 3600, sym_links=['PA', 'PC'], controls=[('P1', 0), ('P1', 1)]),
     dict(name='G2-reopen-dead-end', graph='G2', H=3600, dur=2 * 3600, sym_links=['PB', 'P3'], controls=[('P4', 0), ('P4', 1)]),
     dict(name='G1-tcv-in-cut-off-region', graph='G1', H=3600, dur=3600, sym_links=['PA', 'PB', 'P4'], closed=['P5'], controls=[('P1', 0), ('P1', 1)]),
+    dict(name='G3-shared-ids', graph='G3', H=3600, dur=2 * 3600, sym_links=['11', '7'], controls=[('12', 0), ('12', 1)]),
     dict(name='G2-toggle', graph='G2', H=1800, dur=3600, sym_links=['PA', 'PC', 'P3'], controls=[('PB', 0), ('PB', 1)]),
 ]
 CFGS_THOROUGH = CFGS_QUICK + [
@@ -148,7 +163,9 @@ def check_cfg(rep, cfg):
     saved = core.check_for_isolated_junctions
     core.check_for_isolated_junctions = iso.check_for_isolated_junctions
     log = []
+    plane_stale = []
     plane = ctrlplane.Plane(make_policy(log))
+    plane.audit = True          # at every solve the incrementally updated model must equal a fresh build for the current state
     try:
         with ctrlplane.installed(plane):
             def harness(c):
@@ -156,6 +173,8 @@ def check_cfg(rep, cfg):
                 del log[:]
                 wn = build(V, cfg)
                 res = plane.run(wn)
+                del plane_stale[:]
+                plane_stale.extend(plane.stale)
                 return V, wn, res, list(log)
             n = 0
             bad_seen = False
@@ -168,7 +187,7 @@ def check_cfg(rep, cfg):
                     bad_seen = True
                     break
                 V, wn, res, lg = path.value
-                problems = []
+                problems = list(plane_stale)
                 for e in lg:
                     problems += e['bad']
                 # results: zeros exactly for the unreachable junctions at each record
